@@ -1,4 +1,6 @@
 import VlsModel.Gen.FnTrackerRestore
+import VlsModel.Gen.FnBackup
+import VlsModel.Model.Backup
 import VlsModel.Lemmas.FnGen
 /-
 C11 — companion module: functions of the restore path translated from the Rust source on every run
@@ -48,4 +50,136 @@ theorem C11_fn_tracker_restore_listener {Headers Network Key L PublicKey V : Typ
       · have hb : (k0 != k) = true := by simpa using h
         simp only [List.filter, hb, Rs.omapGet, h, if_false]
         exact ih
+
+/-! ## `BackupPersister` (vls-persist/src/backup_persister.rs), translated from the source on every run
+
+Target list `translate/fn_targets/Backup.b1012.json`.  The two underlying persisters are generic (`M`, `B : Persist`);
+their methods are declared externals, i.e. explicit parameters: every theorem below holds for **all** implementations
+of the two stores.  `initial_restore_complete : AtomicBool` is read through the external `load`. -/
+section Backup
+open VlsModel.Gen.FnBackup VlsModel.Backup
+
+/-- the form of the nine writing methods: `if ready { main.m(..)?; } backup.m(..)` -/
+def writeForm (ready : Bool) (m b : Rs.M Unit) : Rs.M Unit := if ready then (m >>= fun _ => b) else b
+/-- the form of the five reading methods: `if ready { main.m(..) } else { backup.m(..) }` -/
+def readForm {α : Type} (ready : Bool) (m b : Rs.M α) : Rs.M α := if ready then m else b
+
+/-- **C11_fn_backup_main_is_ready**: `main_is_ready` of the source is the model's `Comp.mainReady`
+    (`!main.recovery_required() || initial_restore_complete`), whatever memory ordering the load names. -/
+theorem C11_fn_backup_main_is_ready (c : Comp) :
+    BackupPersister.main_is_ready (M := Store) (AtomicBool := Bool) (B := Store) (fun s => s.needsRecovery) (fun b _ => b)
+      ⟨c.main, c.backup, c.restoreDone⟩ = c.mainReady := rfl
+
+variable {M AtomicBool B PublicKey NodeConfig NodeState ChannelStub ChannelId ChainTracker Channel ValidatorFactory
+  ChainTrackerListenerEntry CoreChannelEntry CoreNodeEntry : Type}
+  (rr : M → Bool) (ld : AtomicBool → Gen.FnBackup.Ordering → Bool) (self : BackupPersister M AtomicBool B)
+
+/-- **C11_fn_backup_writes**: each of the nine writing methods of `impl Persist for BackupPersister`, as it is in
+    the source now, *is* `writeForm`: the main store is written first and only when it is ready, its error is
+    returned before the backup is touched, and the backup is written in every other case and decides the result.
+    A method that wrote the backup first, skipped it, swallowed the main store's error or ignored the readiness
+    flag changes the translated body and breaks its conjunct. -/
+theorem C11_fn_backup_writes (node_id : PublicKey) :
+    (∀ (em : M → PublicKey → NodeConfig → NodeState → Rs.M Unit) (eb : B → PublicKey → NodeConfig → NodeState → Rs.M Unit) cfg st,
+      BackupPersister.new_node rr ld em eb self node_id cfg st
+        = writeForm (BackupPersister.main_is_ready rr ld self) (em self.main node_id cfg st) (eb self.backup node_id cfg st)) ∧
+    (∀ (em : M → PublicKey → NodeState → Rs.M Unit) (eb : B → PublicKey → NodeState → Rs.M Unit) st,
+      BackupPersister.update_node rr ld em eb self node_id st
+        = writeForm (BackupPersister.main_is_ready rr ld self) (em self.main node_id st) (eb self.backup node_id st)) ∧
+    (∀ (em : M → PublicKey → Rs.M Unit) (eb : B → PublicKey → Rs.M Unit),
+      BackupPersister.delete_node rr ld em eb self node_id
+        = writeForm (BackupPersister.main_is_ready rr ld self) (em self.main node_id) (eb self.backup node_id)) ∧
+    (∀ (em : M → PublicKey → ChannelStub → Rs.M Unit) (eb : B → PublicKey → ChannelStub → Rs.M Unit) stub,
+      BackupPersister.new_channel rr ld em eb self node_id stub
+        = writeForm (BackupPersister.main_is_ready rr ld self) (em self.main node_id stub) (eb self.backup node_id stub)) ∧
+    (∀ (em : M → PublicKey → ChannelId → Rs.M Unit) (eb : B → PublicKey → ChannelId → Rs.M Unit) cid,
+      BackupPersister.delete_channel rr ld em eb self node_id cid
+        = writeForm (BackupPersister.main_is_ready rr ld self) (em self.main node_id cid) (eb self.backup node_id cid)) ∧
+    (∀ (em : M → PublicKey → ChainTracker → Rs.M Unit) (eb : B → PublicKey → ChainTracker → Rs.M Unit) t,
+      BackupPersister.new_tracker rr ld em eb self node_id t
+        = writeForm (BackupPersister.main_is_ready rr ld self) (em self.main node_id t) (eb self.backup node_id t)) ∧
+    (∀ (em : M → PublicKey → ChainTracker → Rs.M Unit) (eb : B → PublicKey → ChainTracker → Rs.M Unit) t,
+      BackupPersister.update_tracker rr ld em eb self node_id t
+        = writeForm (BackupPersister.main_is_ready rr ld self) (em self.main node_id t) (eb self.backup node_id t)) ∧
+    (∀ (em : M → PublicKey → Channel → Rs.M Unit) (eb : B → PublicKey → Channel → Rs.M Unit) ch,
+      BackupPersister.update_channel rr ld em eb self node_id ch
+        = writeForm (BackupPersister.main_is_ready rr ld self) (em self.main node_id ch) (eb self.backup node_id ch)) ∧
+    (∀ (em : M → PublicKey → List String → Rs.M Unit) (eb : B → PublicKey → List String → Rs.M Unit) al,
+      BackupPersister.update_node_allowlist rr ld em eb self node_id al
+        = writeForm (BackupPersister.main_is_ready rr ld self) (em self.main node_id al) (eb self.backup node_id al)) := by
+  refine ⟨?_, ?_, ?_, ?_, ?_, ?_, ?_, ?_, ?_⟩ <;> intros <;>
+    (first
+      | unfold BackupPersister.new_node | unfold BackupPersister.update_node | unfold BackupPersister.delete_node
+      | unfold BackupPersister.new_channel | unfold BackupPersister.delete_channel | unfold BackupPersister.new_tracker
+      | unfold BackupPersister.update_tracker | unfold BackupPersister.update_channel
+      | unfold BackupPersister.update_node_allowlist) <;>
+    unfold writeForm <;> generalize BackupPersister.main_is_ready rr ld self = r <;> cases r <;> rfl
+
+/-- **C11_fn_backup_reads**: each of the five reading methods asks the main store when it is ready and the backup
+    otherwise — never both, never the backup while the main store is ready. -/
+theorem C11_fn_backup_reads (node_id : PublicKey) :
+    (∀ (em : M → PublicKey → ValidatorFactory → Rs.M (ChainTracker × List ChainTrackerListenerEntry))
+       (eb : B → PublicKey → ValidatorFactory → Rs.M (ChainTracker × List ChainTrackerListenerEntry)) vf,
+      BackupPersister.get_tracker rr ld em eb self node_id vf
+        = readForm (BackupPersister.main_is_ready rr ld self) (em self.main node_id vf) (eb self.backup node_id vf)) ∧
+    (∀ (em : M → PublicKey → ChannelId → Rs.M CoreChannelEntry) (eb : B → PublicKey → ChannelId → Rs.M CoreChannelEntry) cid,
+      BackupPersister.get_channel rr ld em eb self node_id cid
+        = readForm (BackupPersister.main_is_ready rr ld self) (em self.main node_id cid) (eb self.backup node_id cid)) ∧
+    (∀ (em : M → PublicKey → Rs.M (List (ChannelId × CoreChannelEntry))) (eb : B → PublicKey → Rs.M (List (ChannelId × CoreChannelEntry))),
+      BackupPersister.get_node_channels rr ld em eb self node_id
+        = readForm (BackupPersister.main_is_ready rr ld self) (em self.main node_id) (eb self.backup node_id)) ∧
+    (∀ (em : M → PublicKey → Rs.M (List String)) (eb : B → PublicKey → Rs.M (List String)),
+      BackupPersister.get_node_allowlist rr ld em eb self node_id
+        = readForm (BackupPersister.main_is_ready rr ld self) (em self.main node_id) (eb self.backup node_id)) ∧
+    (∀ (em : M → Rs.M (List (PublicKey × CoreNodeEntry))) (eb : B → Rs.M (List (PublicKey × CoreNodeEntry))),
+      BackupPersister.get_nodes rr ld em eb self
+        = readForm (BackupPersister.main_is_ready rr ld self) (em self.main) (eb self.backup)) :=
+  ⟨fun _ _ _ => rfl, fun _ _ _ => rfl, fun _ _ => rfl, fun _ _ => rfl, fun _ _ => rfl⟩
+
+/-- **C11_fn_backup_clear_database**: both stores, unguarded, main first (`main.clear_database()?; backup.clear_database()`). -/
+theorem C11_fn_backup_clear_database (em : M → Rs.M Unit) (eb : B → Rs.M Unit) :
+    BackupPersister.clear_database em eb self = (em self.main >>= fun _ => eb self.backup) := rfl
+
+/-- **C11_fn_backup_signer_id**: the composite answers with the main store's id. -/
+theorem C11_fn_backup_signer_id (em : M → List Nat) : BackupPersister.signer_id (B := B) (AtomicBool := AtomicBool) em self = em self.main := rfl
+
+/-- what a call of a model store answers: an error iff the store refuses writes -/
+def isOk (r : Rs.M Unit) : Bool := match r with | .ok _ => true | .error _ => false
+def callOf (s : Store) : Rs.M Unit := if s.failing then .error (.err "Error") else .ok ()
+/-- the entry written into a store that accepts the write -/
+def putE (s : Store) (k : Nat) (v : Option Nat) : Store := { s with data := fun x => if x = k then v else s.data x }
+
+/-- **C11_fn_backup_write_model**: the hand-written `Comp.write` of `Model/Backup.lean` (on which the `C11_backup_*`
+    theorems of `Props/C11Gen.lean` are proved) is `writeForm` run on the two model stores: its result is the form's
+    result, the main store is written iff the form reaches its call (ready) and the call succeeds, the backup is
+    written iff the whole form succeeds (its call is the last one), and nothing else changes. -/
+theorem C11_fn_backup_write_model (c : Comp) (k : Nat) (v : Option Nat) :
+    let r := writeForm c.mainReady (callOf c.main) (callOf c.backup)
+    (c.write k v).2 = (if isOk r then Res.ok else Res.err) ∧
+    (c.write k v).1.main = (if c.mainReady = true ∧ c.main.failing = false then putE c.main k v else c.main) ∧
+    (c.write k v).1.backup = (if isOk r then putE c.backup k v else c.backup) ∧
+    (c.write k v).1.restoreDone = c.restoreDone := by
+  unfold Comp.write writeForm callOf Store.write putE isOk
+  cases hr : c.mainReady <;> cases hm : c.main.failing <;> cases hb : c.backup.failing <;> simp [bind, Except.bind]
+
+/-- **C11_fn_backup_update_node_model**: the translated `update_node` (and, by `C11_fn_backup_writes`, every writing
+    method) run on the model's stores acknowledges exactly when `Comp.write` does. -/
+theorem C11_fn_backup_update_node_model (c : Comp) (k : Nat) (v : Option Nat) :
+    (BackupPersister.update_node (M := Store) (AtomicBool := Bool) (B := Store) (PublicKey := Nat) (NodeState := Option Nat)
+        (fun s => s.needsRecovery) (fun b _ => b) (fun s _ _ => callOf s) (fun s _ _ => callOf s)
+        ⟨c.main, c.backup, c.restoreDone⟩ k v = .ok ()) ↔ (c.write k v).2 = Res.ok := by
+  have h := (C11_fn_backup_writes (NodeConfig := Unit) (ChannelStub := Unit) (ChannelId := Unit) (ChainTracker := Unit) (Channel := Unit)
+    (fun s : Store => s.needsRecovery) (fun (b : Bool) _ => b) ⟨c.main, c.backup, c.restoreDone⟩ k).2.1
+    (fun s _ _ => callOf s) (fun s _ _ => callOf s) v
+  rw [h, C11_fn_backup_main_is_ready, (C11_fn_backup_write_model c k v).1]
+  generalize writeForm c.mainReady (callOf c.main) (callOf c.backup) = r
+  cases r <;> simp [isOk]
+
+/-- non-vacuity: a ready composite with a failing backup acknowledges nothing although the main store was written
+    (the main store is ahead — the case `C11_backup_refused` speaks about) -/
+example : ∃ c : Comp, (c.write 1 (some 2)).2 = Res.err ∧ (c.write 1 (some 2)).1.main.data 1 = some 2 ∧
+    writeForm c.mainReady (callOf c.main) (callOf c.backup) = .error (.err "Error") :=
+  ⟨⟨⟨fun _ => none, false, false⟩, ⟨fun _ => none, true, false⟩, false⟩, rfl, rfl, rfl⟩
+
+end Backup
 end VlsModel.Props.C11Fn
